@@ -138,7 +138,8 @@ impl<'a> P<'a> {
             }
         }
         let text = std::str::from_utf8(&self.b[s..self.i]).unwrap();
-        if is_int {
+        if is_int && text != "-0" {
+            // ("-0" keeps its sign only as a floating-point zero: read it as one, as JSON readers that care do)
             if let Ok(i) = text.parse::<i128>() {
                 return Ok(Val::Int(i));
             }
